@@ -49,8 +49,8 @@ Fixpoint posof (objs : zmap obj) (ord : list Z) (id : Z) : Z :=
   | [] => 0
   | x :: r => if x =? id then 0 else size_of objs x + posof objs r id
   end.
-Definition total_size (objs : zmap obj) (ord : list Z) : Z :=
-  fold_right (fun id acc => size_of objs id + acc) 0 ord.
+Fixpoint total_size (objs : zmap obj) (ord : list Z) : Z :=
+  match ord with [] => 0 | id :: r => size_of objs id + total_size objs r end.
 Definition cat (objs : zmap obj) (ord : list Z) : list Z := concat (map (bytes_of objs) ord).
 
 (* a precedes b in ord *)
@@ -183,7 +183,6 @@ Proof.
     assert (HB1len : length B1 = length B) by (apply patch1_length; exact Hfit).
     destruct (IH (p + w) B1) as (B' & Hrun & Hlen & Hpre & Hout & Hsl); try lia.
     { unfold blen. rewrite HB1len. exact Hwf. }
-    { exact HA. }
     { intros l' Hin. apply Hok. right. exact Hin. }
     exists B'. split; [|split; [|split; [|split]]].
     + cbn [pass2_links]. rewrite Ha. cbn [obind].
@@ -193,7 +192,7 @@ Proof.
       rewrite Hrelv. rewrite chk_u_some by lia. cbn [obind].
       rewrite chk_u_some by lia. cbn [obind].
       fold w. rewrite offset_bytes_ok by (auto; lia). cbn [obind]. fold bs.
-      rewrite <- HA. fold p. rewrite write_at_mid by lia. cbn [obind]. fold B1. exact Hrun.
+      fold p. replace (head + p) with (blen A + p) by lia. rewrite write_at_mid by lia. cbn [obind]. fold B1. exact Hrun.
     + lia.
     + (* prefix below lo untouched *)
       assert (E : firstn (Z.to_nat lo) B' = firstn (Z.to_nat lo) (firstn (Z.to_nat (p + w)) B')).
@@ -212,6 +211,330 @@ Proof.
                     skipn (Z.to_nat p) (firstn (Z.to_nat (p + w)) B')).
         { rewrite firstn_skipn_comm. f_equal. f_equal. lia. }
         rewrite E, Hpre. replace (Z.to_nat (p + w)) with (Z.to_nat p + Z.to_nat w)%nat by lia.
-        rewrite <- firstn_skipn_comm. rewrite <- Hbl. unfold B1. apply patch1_slice. exact Hfit.
+        rewrite <- firstn_skipn_comm. fold bs. rewrite <- Hbl. unfold B1. apply patch1_slice. exact Hfit.
       * apply Hsl. exact Hin.
+Qed.
+
+(* ------------------------------------------------------------------------------------------ *)
+(* maps                                                                                        *)
+
+Lemma mfind_minsert_same {A} k (v : A) m : mfind k (minsert k v m) = Some v.
+Proof.
+  induction m as [|[k' v'] r IH]; cbn.
+  - rewrite Z.eqb_refl. reflexivity.
+  - destruct (k <? k') eqn:E1; cbn.
+    + rewrite Z.eqb_refl. reflexivity.
+    + destruct (k =? k') eqn:E2; cbn.
+      * rewrite Z.eqb_refl. reflexivity.
+      * rewrite E2. exact IH.
+Qed.
+Lemma mfind_minsert_other {A} k k' (v : A) m : k <> k' -> mfind k' (minsert k v m) = mfind k' m.
+Proof.
+  intros Hne. induction m as [|[k0 v0] r IH]; cbn.
+  - destruct (k' =? k) eqn:E; [lia|reflexivity].
+  - destruct (k <? k0) eqn:E1; cbn.
+    + destruct (k' =? k) eqn:E; [lia|reflexivity].
+    + destruct (k =? k0) eqn:E2; cbn.
+      * destruct (k' =? k) eqn:E; [lia|]. destruct (k' =? k0) eqn:E3; [lia|reflexivity].
+      * destruct (k' =? k0); [reflexivity|exact IH].
+Qed.
+Lemma mfind_In {A} k (v : A) m : mfind k m = Some v -> In (k, v) m.
+Proof.
+  induction m as [|[k' v'] r IH]; cbn; [discriminate|].
+  destruct (k =? k') eqn:E.
+  - intros [= ->]. left. f_equal. lia.
+  - intros H. right. apply IH. exact H.
+Qed.
+
+(* ------------------------------------------------------------------------------------------ *)
+(* first pass                                                                                  *)
+
+Lemma size_of_nonneg objs id : 0 <= size_of objs id.
+Proof. unfold size_of. destruct (mfind id objs); [apply blen_nonneg|lia]. Qed.
+Lemma total_size_nonneg objs ord : 0 <= total_size objs ord.
+Proof. induction ord; cbn [total_size]; [lia|]. pose proof (size_of_nonneg objs a). lia. Qed.
+Lemma posof_nonneg objs ord id : 0 <= posof objs ord id.
+Proof.
+  induction ord as [|x r IH]; cbn [posof]; [lia|]. destruct (x =? id); [lia|].
+  pose proof (size_of_nonneg objs x). lia.
+Qed.
+Lemma posof_le_total objs ord id : In id ord -> posof objs ord id + size_of objs id <= total_size objs ord.
+Proof.
+  induction ord as [|x r IH]; cbn [posof total_size In]; [intros []|].
+  intros H. destruct (x =? id) eqn:E.
+  - assert (x = id) by lia. subst. pose proof (total_size_nonneg objs r). lia.
+  - destruct H as [->|H]; [lia|]. specialize (IH H). lia.
+Qed.
+
+Lemma pass1_spec objs : forall ord off offs out,
+  NoDup ord ->
+  (forall id, In id ord -> exists o, mfind id objs = Some o) ->
+  0 <= off -> off + total_size objs ord < 2 ^ 32 ->
+  exists offs', pass1 objs ord off offs out = Some (offs', out ++ cat objs ord) /\
+    (forall id, In id ord -> mfind id offs' = Some (off + posof objs ord id)) /\
+    (forall id, ~ In id ord -> mfind id offs' = mfind id offs).
+Proof.
+  induction ord as [|x r IH]; intros off offs out Hnd Hobj Hoff Htot.
+  - exists offs. cbn. rewrite app_nil_r. repeat split; auto. intros id [].
+  - inversion Hnd as [|? ? Hnotin Hnd']; subst.
+    destruct (Hobj x (or_introl eq_refl)) as (o & Ho).
+    cbn [total_size] in Htot.
+    assert (Hsz : size_of objs x = blen (o_bytes o)) by (unfold size_of; rewrite Ho; reflexivity).
+    pose proof (total_size_nonneg objs r) as Hnn. pose proof (blen_nonneg (o_bytes o)).
+    destruct (IH (off + blen (o_bytes o)) (minsert x off offs) (out ++ o_bytes o)) as (offs' & Hrun & Hin & Hout); auto; try lia.
+    { intros id Hid. apply Hobj. right. exact Hid. }
+    exists offs'. split; [|split].
+    + cbn [pass1]. rewrite Ho. cbn [obind]. rewrite chk_u_some by lia. cbn [obind].
+      rewrite Hrun. f_equal. f_equal. unfold cat. cbn [map concat]. unfold bytes_of at 2. rewrite Ho.
+      rewrite <- app_assoc. reflexivity.
+    + intros id [<-|Hid].
+      * rewrite Hout by exact Hnotin. rewrite mfind_minsert_same. cbn [posof]. rewrite Z.eqb_refl. f_equal. lia.
+      * rewrite Hin by exact Hid. cbn [posof].
+        destruct (x =? id) eqn:E; [assert (x = id) by lia; subst; contradiction|].
+        f_equal. lia.
+    + intros id Hid. rewrite Hout by (intro; apply Hid; right; assumption).
+      apply mfind_minsert_other. intro; subst; apply Hid; left; reflexivity.
+Qed.
+
+(* ------------------------------------------------------------------------------------------ *)
+(* second pass, all objects                                                                    *)
+
+Definition obj_patch_spec (offs : zmap Z) (head : Z) (o : obj) (B' : list Z) : Prop :=
+  length B' = length (o_bytes o) /\
+  (forall i, 0 <= i < blen (o_bytes o) -> ~ field_of o i -> znth i B' = znth i (o_bytes o)) /\
+  (forall l, In l (o_links o) ->
+     slice B' (l_pos l) (l_width l) = to_be (Z.to_nat (l_width l)) (relof offs head l)).
+
+Fixpoint ord_ok (objs : zmap obj) (offs : zmap Z) (head : Z) (ord : list Z) : Prop :=
+  match ord with
+  | [] => True
+  | id :: r => exists o, mfind id objs = Some o /\ obj_wf o /\
+                 (forall l, In l (o_links o) -> link_ok offs head l) /\
+                 ord_ok objs offs (head + blen (o_bytes o)) r
+  end.
+Fixpoint patched (objs : zmap obj) (offs : zmap Z) (head : Z) (ord : list Z) (Bs : list (list Z)) : Prop :=
+  match ord, Bs with
+  | [], [] => True
+  | id :: r, B' :: Bs' => exists o, mfind id objs = Some o /\ obj_patch_spec offs head o B' /\
+                             patched objs offs (head + blen (o_bytes o)) r Bs'
+  | _, _ => False
+  end.
+
+Lemma pass2_spec objs offs : forall ord head P,
+  blen P = head -> 0 <= head -> head + total_size objs ord < 2 ^ 32 ->
+  ord_ok objs offs head ord ->
+  exists Bs, pass2 objs offs ord head (P ++ cat objs ord) = Some (P ++ concat Bs) /\
+             patched objs offs head ord Bs.
+Proof.
+  induction ord as [|x r IH]; intros head P HP Hh Htot Hok.
+  - exists []. cbn. split; auto.
+  - cbn [ord_ok] in Hok. destruct Hok as (o & Ho & Hwf & Hlk & Hok).
+    cbn [total_size] in Htot.
+    assert (Hsz : size_of objs x = blen (o_bytes o)) by (unfold size_of; rewrite Ho; reflexivity).
+    pose proof (total_size_nonneg objs r) as Hnn. pose proof (blen_nonneg (o_bytes o)).
+    assert (Hcat : cat objs (x :: r) = o_bytes o ++ cat objs r).
+    { unfold cat. cbn [map concat]. unfold bytes_of at 1. rewrite Ho. reflexivity. }
+    destruct (links_spec offs head P (cat objs r) (o_links o) 0 (o_bytes o)) as (B' & Hrun & Hlen & _ & Hout & Hsl); auto; try lia.
+    destruct (IH (head + blen (o_bytes o)) (P ++ B')) as (Bs & Hrun2 & Hpat); auto; try lia.
+    { rewrite blen_app. unfold blen in *. lia. }
+    exists (B' :: Bs). split.
+    + cbn [pass2]. rewrite Ho. cbn [obind]. rewrite Hcat, Hrun. cbn [obind].
+      rewrite chk_u_some by lia. cbn [obind].
+      rewrite app_assoc, Hrun2. cbn [concat]. rewrite <- app_assoc. reflexivity.
+    + cbn [patched]. exists o. split; [exact Ho|]. split; [|exact Hpat].
+      split; [exact Hlen|]. split.
+      * intros i Hi Hnf. apply Hout; [exact Hi|]. intros l Hin Hf. apply Hnf. exists l. split; assumption.
+      * exact Hsl.
+Qed.
+
+Lemma patched_at objs offs : forall ord head Bs id,
+  patched objs offs head ord Bs -> In id ord ->
+  exists o B' X Y, mfind id objs = Some o /\ obj_patch_spec offs (head + posof objs ord id) o B' /\
+                   concat Bs = X ++ B' ++ Y /\ blen X = posof objs ord id.
+Proof.
+  induction ord as [|x r IH]; intros head Bs id Hp Hin; [destruct Hin|].
+  destruct Bs as [|B0 Bs]; [destruct Hp|]. cbn [patched] in Hp. destruct Hp as (o & Ho & Hspec & Hp).
+  cbn [posof]. destruct (x =? id) eqn:E.
+  - assert (x = id) by lia. subst x. exists o, B0, [], (concat Bs).
+    rewrite Z.add_0_r. repeat split; auto; apply Hspec.
+  - destruct Hin as [->|Hin]; [lia|].
+    destruct (IH _ _ _ Hp Hin) as (o' & B' & X & Y & Ho' & Hs' & Hc & HX).
+    exists o', B', (B0 ++ X), Y. split; [exact Ho'|]. split.
+    + replace (head + (size_of objs x + posof objs r id)) with (head + blen (o_bytes o) + posof objs r id); [exact Hs'|].
+      unfold size_of. rewrite Ho. lia.
+    + split.
+      * cbn [concat]. rewrite Hc, <- app_assoc. reflexivity.
+      * rewrite blen_app, HX. unfold size_of. rewrite Ho. destruct Hspec as (Hl & _). unfold blen. lia.
+Qed.
+
+Lemma znth_mid X B Y i : 0 <= i < blen B -> znth (blen X + i) (X ++ B ++ Y) = znth i B.
+Proof.
+  intros Hi. unfold znth, blen in *.
+  replace (Z.to_nat (Z.of_nat (length X) + i)) with (length X + Z.to_nat i)%nat by lia.
+  rewrite app_nth2 by lia. replace (length X + Z.to_nat i - length X)%nat with (Z.to_nat i) by lia.
+  apply app_nth1. lia.
+Qed.
+Lemma slice_mid X B Y p w : 0 <= p -> 0 <= w -> p + w <= blen B ->
+  slice (X ++ B ++ Y) (blen X + p) w = slice B p w.
+Proof.
+  intros Hp Hw Hb. unfold slice, blen in *.
+  replace (Z.to_nat (Z.of_nat (length X) + p)) with (length X + Z.to_nat p)%nat by lia.
+  rewrite skipn_app. rewrite skipn_all2 by lia. cbn [app].
+  replace (length X + Z.to_nat p - length X)%nat with (Z.to_nat p) by lia.
+  rewrite skipn_app. rewrite firstn_app. rewrite skipn_length.
+  replace (Z.to_nat w - (length B - Z.to_nat p))%nat with O by lia. cbn [firstn]. apply app_nil_r.
+Qed.
+
+(* ------------------------------------------------------------------------------------------ *)
+(* serialize_sound                                                                             *)
+
+Record layout_ok (objs : zmap obj) (ord : list Z) : Prop := {
+  lo_nonempty : ord <> [];
+  lo_nodup : NoDup ord;
+  lo_objs : forall id, In id ord -> exists o, mfind id objs = Some o /\ obj_wf o;
+  lo_closed : forall id o l, In id ord -> mfind id objs = Some o -> In l (o_links o) -> In (l_obj l) ord;
+  lo_size : total_size objs ord < 2 ^ 32;
+  (* the gate: no offset overflows its width; adjustments do not exceed the distance *)
+  lo_fits : forall id o l, In id ord -> mfind id objs = Some o -> In l (o_links o) ->
+      0 <= l_adj l /\ posof objs ord id + l_adj l <= posof objs ord (l_obj l) /\
+      posof objs ord (l_obj l) - (posof objs ord id + l_adj l) <= max_value (l_width l);
+  (* every parent precedes its children *)
+  lo_topo : forall id o l, In id ord -> mfind id objs = Some o -> In l (o_links o) ->
+      precedes ord id (l_obj l) }.
+
+Lemma links_wf_width lo ls len : links_wf lo ls len -> forall l, In l ls ->
+  (l_width l = 2 \/ l_width l = 3 \/ l_width l = 4) /\ lo <= l_pos l /\ l_pos l + l_width l <= len.
+Proof.
+  revert lo. induction ls as [|x r IH]; intros lo Hwf l Hin; [destruct Hin|].
+  cbn [links_wf] in Hwf. destruct Hwf as (H1 & H2 & H3 & H4). destruct Hin as [<-|Hin].
+  - auto.
+  - destruct (IH _ H4 l Hin) as (Ha & Hb & Hc). repeat split; auto. destruct H2 as [E|[E|E]]; lia.
+Qed.
+
+Lemma max_value_lt w : max_value w < 2 ^ 32.
+Proof. unfold max_value. destruct (w =? 2); [|destruct (w =? 3)]; cbn; lia. Qed.
+
+Lemma ord_ok_of_layout objs offs full : layout_ok objs full ->
+  (forall id, In id full -> mfind id offs = Some (posof objs full id)) ->
+  forall pre suf, full = pre ++ suf -> ord_ok objs offs (total_size objs pre) suf.
+Proof.
+  intros L Hoffs pre suf. revert pre. induction suf as [|x r IH]; intros pre Hfull; [exact I|].
+  cbn [ord_ok].
+  assert (Hin : In x full) by (rewrite Hfull; apply in_or_app; right; left; reflexivity).
+  destruct (lo_objs _ _ L x Hin) as (o & Ho & Hwf). exists o. split; [exact Ho|]. split; [exact Hwf|].
+  assert (Hpos : posof objs full x = total_size objs pre).
+  { pose proof (lo_nodup _ _ L) as Hnd. rewrite Hfull in Hnd |- *. clear - Hnd.
+    induction pre as [|y pre IHp]; cbn [app posof total_size].
+    - rewrite Z.eqb_refl. reflexivity.
+    - inversion Hnd; subst. destruct (y =? x) eqn:E.
+      + exfalso. assert (y = x) by lia. subst. apply H1. apply in_or_app. right. left. reflexivity.
+      + rewrite IHp by assumption. reflexivity. }
+  split.
+  - intros l Hl. destruct (lo_fits _ _ L x o l Hin Ho Hl) as (Hadj & Hle & Hmax).
+    pose proof (lo_closed _ _ L x o l Hin Ho Hl) as Hcl.
+    pose proof (posof_le_total objs full (l_obj l) Hcl) as Hb.
+    pose proof (posof_le_total objs full x Hin) as Hbx.
+    pose proof (size_of_nonneg objs (l_obj l)). pose proof (lo_size _ _ L).
+    destruct (links_wf_width _ _ _ Hwf l Hl) as (Hw & Hp0 & Hpe).
+    assert (Hsz : size_of objs x = blen (o_bytes o)) by (unfold size_of; rewrite Ho; reflexivity).
+    pose proof (max_value_lt (l_width l)).
+    unfold link_ok, relof, absof. rewrite (Hoffs _ Hcl). rewrite <- Hpos.
+    split; [eexists; reflexivity|]. repeat split; try lia.
+  - replace (total_size objs pre + blen (o_bytes o)) with (total_size objs (pre ++ [x])).
+    + apply IH. rewrite Hfull, <- app_assoc. reflexivity.
+    + clear - Ho. induction pre as [|y pre IHp]; cbn [app total_size].
+      * unfold size_of. rewrite Ho. lia.
+      * rewrite IHp. lia.
+Qed.
+
+Lemma nodup_split_unique (x : Z) : forall l1 r1 l2 r2,
+  NoDup (l1 ++ x :: r1) -> l1 ++ x :: r1 = l2 ++ x :: r2 -> l1 = l2 /\ r1 = r2.
+Proof.
+  induction l1 as [|a l1 IH]; intros r1 l2 r2 Hnd Heq.
+  - destruct l2 as [|b l2]; cbn in *.
+    + inversion Heq. auto.
+    + inversion Heq; subst. inversion Hnd; subst. exfalso. apply H1. apply in_or_app. right. left. reflexivity.
+  - destruct l2 as [|b l2]; cbn in *.
+    + inversion Heq; subst. inversion Hnd; subst. exfalso. apply H1. apply in_or_app. right. left. reflexivity.
+    + inversion Heq; subst. inversion Hnd; subst. destruct (IH _ _ _ H3 H1). subst. auto.
+Qed.
+
+Theorem serialize_sound_lemma objs ord : layout_ok objs ord ->
+  exists out, serialize_ord objs ord = Some out /\ blen out = total_size objs ord /\
+    (forall id, In id ord -> Resolves objs out (posof objs ord id) id) /\
+    (forall id o l, In id ord -> mfind id objs = Some o -> In l (o_links o) ->
+        from_be (slice out (posof objs ord id + l_pos l) (l_width l))
+          = posof objs ord (l_obj l) - (posof objs ord id + l_adj l) /\
+        from_be (slice out (posof objs ord id + l_pos l) (l_width l)) < 2 ^ (8 * l_width l)).
+Proof.
+  intros L.
+  pose proof (lo_size _ _ L) as Hsize. pose proof (total_size_nonneg objs ord) as Hnn.
+  destruct (pass1_spec objs ord 0 [] []) as (offs & Hp1 & Hoffs & _); try lia.
+  { exact (lo_nodup _ _ L). }
+  { intros id Hid. destruct (lo_objs _ _ L id Hid) as (o & Ho & _). eauto. }
+  cbn [app] in Hp1.
+  assert (Hoffs' : forall id, In id ord -> mfind id offs = Some (posof objs ord id)).
+  { intros id Hid. rewrite (Hoffs id Hid). f_equal. lia. }
+  destruct (pass2_spec objs offs ord 0 []) as (Bs & Hp2 & Hpat); try reflexivity; try lia.
+  { exact (ord_ok_of_layout objs offs ord L Hoffs' [] ord eq_refl). }
+  cbn [app] in Hp2.
+  exists (concat Bs).
+  assert (Hser : serialize_ord objs ord = Some (concat Bs)).
+  { unfold serialize_ord. destruct ord as [|x r] eqn:E; [exfalso; exact (lo_nonempty _ _ L eq_refl)|].
+    rewrite Hp1. cbn [obind fst snd]. exact Hp2. }
+  (* facts about each object's region of the output *)
+  assert (Hregion : forall id, In id ord -> exists o B' X Y, mfind id objs = Some o /\
+             obj_patch_spec offs (posof objs ord id) o B' /\ concat Bs = X ++ B' ++ Y /\
+             blen X = posof objs ord id).
+  { intros id Hid. destruct (patched_at objs offs ord 0 Bs id Hpat Hid) as (o & B' & X & Y & H1 & H2 & H3 & H4).
+    exists o, B', X, Y. rewrite Z.add_0_l in H2. auto. }
+  assert (Hlen : blen (concat Bs) = total_size objs ord).
+  { clear - Hpat. revert Hpat. generalize 0. revert Bs.
+    induction ord as [|x r IH]; intros Bs h Hp; destruct Bs as [|B0 Bs]; cbn in Hp; try contradiction; [reflexivity|].
+    destruct Hp as (o & Ho & (Hl & _) & Hp). cbn [concat total_size]. rewrite blen_app, (IH _ _ Hp).
+    unfold size_of. rewrite Ho. unfold blen. lia. }
+  assert (Hvals : forall id o l, In id ord -> mfind id objs = Some o -> In l (o_links o) ->
+        from_be (slice (concat Bs) (posof objs ord id + l_pos l) (l_width l))
+          = posof objs ord (l_obj l) - (posof objs ord id + l_adj l) /\
+        from_be (slice (concat Bs) (posof objs ord id + l_pos l) (l_width l)) < 2 ^ (8 * l_width l)).
+  { intros id o l Hid Ho Hl.
+    destruct (Hregion id Hid) as (o' & B' & X & Y & Ho' & (HlenB & _ & Hsl) & Hcat & HX).
+    rewrite Ho in Ho'. inversion Ho'; subst o'. clear Ho'.
+    destruct (lo_objs _ _ L id Hid) as (o'' & Ho'' & Hwf). rewrite Ho in Ho''. inversion Ho''; subst o''.
+    destruct (links_wf_width _ _ _ Hwf l Hl) as (Hw & Hp0 & Hpe).
+    destruct (lo_fits _ _ L id o l Hid Ho Hl) as (Hadj & Hle & Hmax).
+    pose proof (lo_closed _ _ L id o l Hid Ho Hl) as Hcl.
+    rewrite Hcat, <- HX. rewrite slice_mid; try lia; [|unfold blen in *; lia].
+    rewrite (Hsl l Hl). unfold relof, absof. rewrite (Hoffs' _ Hcl). rewrite HX.
+    set (v := posof objs ord (l_obj l) - (posof objs ord id + l_adj l)) in *.
+    assert (Hv : 0 <= v <= max_value (l_width l)) by (unfold v; lia).
+    assert (Hpow : max_value (l_width l) < 256 ^ Z.of_nat (Z.to_nat (l_width l))).
+    { unfold max_value. destruct Hw as [-> | [-> | ->]]; cbn; lia. }
+    rewrite from_to_be by lia. split; [reflexivity|].
+    replace (2 ^ (8 * l_width l)) with (256 ^ Z.of_nat (Z.to_nat (l_width l))); [lia|].
+    destruct Hw as [-> | [-> | ->]]; reflexivity. }
+  split; [exact Hser|]. split; [exact Hlen|]. split; [|exact Hvals].
+  (* Resolves, from the end of the order backwards *)
+  assert (Hback : forall suf pre, ord = pre ++ suf -> forall id, In id suf ->
+                    Resolves objs (concat Bs) (posof objs ord id) id).
+  { induction suf as [|x suf IHs]; intros pre Hord id Hid; [destruct Hid|].
+    assert (Hrest : forall t, In t suf -> Resolves objs (concat Bs) (posof objs ord t) t).
+    { intros t Ht. apply (IHs (pre ++ [x])); [rewrite <- app_assoc; exact Hord|exact Ht]. }
+    destruct Hid as [<-|Hid]; [|apply Hrest; exact Hid].
+    assert (Hx : In x ord) by (rewrite Hord; apply in_or_app; right; left; reflexivity).
+    destruct (Hregion x Hx) as (o & B' & X & Y & Ho & (HlenB & Hbytes & Hsl) & Hcat & HX).
+    destruct (lo_objs _ _ L x Hx) as (o' & Ho' & Hwf). rewrite Ho in Ho'. inversion Ho'; subst o'.
+    apply Res with (o := o); [exact Ho|apply posof_nonneg| | |].
+    - rewrite Hlen. pose proof (posof_le_total objs ord x Hx). unfold size_of in H. rewrite Ho in H. exact H.
+    - intros i Hi Hnf. rewrite Hcat, <- HX. rewrite znth_mid by (unfold blen in *; lia).
+      apply Hbytes; assumption.
+    - intros l Hl. destruct (Hvals x o l Hx Ho Hl) as (Hv & _). rewrite Hv.
+      replace (posof objs ord x + l_adj l + (posof objs ord (l_obj l) - (posof objs ord x + l_adj l)))
+        with (posof objs ord (l_obj l)) by lia.
+      apply Hrest.
+      destruct (lo_topo _ _ L x o l Hx Ho Hl) as (l1 & l2 & l3 & Hdec).
+      pose proof (lo_nodup _ _ L) as Hnd. rewrite Hord in Hnd.
+      rewrite Hord in Hdec. destruct (nodup_split_unique x _ _ _ _ Hnd Hdec) as (_ & Hs).
+      rewrite Hs. apply in_or_app. right. left. reflexivity. }
+  intros id Hid. apply (Hback ord []); auto.
 Qed.
